@@ -122,7 +122,7 @@ def check_encoding(ctx, tree, ns, rooted, where, pre_topology=None, flags=None):
                           "split bitmask %s != expected %s" % (bin(b.split_bitmask or 0), bin(sm)),
                           {"tree": ref.to_newick(spec), "clade": sorted(c), "bits": bits, "flags": flags})
             return None
-        if b._tree_leafset_bitmask != treemask:
+        if (b._tree_leafset_bitmask or 0) != treemask:
             ctx.violation("%s|tree-leafset-bitmask-wrong" % where,
                           "tree leafset bitmask %s != %s" % (bin(b._tree_leafset_bitmask or 0), bin(treemask)),
                           {"tree": ref.to_newick(spec), "bits": bits})
@@ -135,7 +135,15 @@ def check_encoding(ctx, tree, ns, rooted, where, pre_topology=None, flags=None):
                           "bipartition_encoding has %d entries for %d edges" % (len(enc), len(seen_bips)),
                           {"tree": ref.to_newick(spec), "flags": flags})
             return None
-        sbem = tree.split_bitmask_edge_map
+        try:
+            tree._split_bitmask_edge_map = None
+            tree._bipartition_edge_map = None
+            sbem = tree.split_bitmask_edge_map
+        except Exception as e:
+            ctx.violation("%s|edge-map-unbuildable|%s" % (where, type(e).__name__),
+                          "split_bitmask_edge_map cannot be built from the encoded tree: %s" % e,
+                          {"tree": ref.to_newick(spec), "flags": flags})
+            return None
         for s, c in cl:
             e = nm[id(s)]._edge
             got = sbem.get(e.bipartition.split_bitmask)
